@@ -34,8 +34,6 @@ must-not-raise-only region.
 
 from __future__ import annotations
 
-import json
-import os
 import random
 import signal
 import time
@@ -98,7 +96,7 @@ def plan(tier, seed):
     rng = random.Random(seed * 7919 + 18)
     combos = [(role, pl, el) for role in ("client", "server") for pl in P_LIMITS for el in E_LIMITS]
     batches = []
-    rounds, n = (1, 64) if tier == "quick" else (40, 64)
+    rounds, n = (2, 56) if tier == "quick" else (50, 100)
     k = 0
     for rnd in range(rounds):
         order = combos[:]
@@ -795,7 +793,7 @@ class Hist:
                 return [["ncid", seq, rpt, variant + 1, to]]
             if c < 0.4:
                 return [["ncid", seq, rpt, variant, to]]
-            return [["ncid", seq, rng.choice([seq, seq, min(seq, cur + 1), min(seq, cur), self.r, 0]), variant, to]]
+            return [["ncid", seq, rng.choice([seq, seq, min(seq, cur + 1), min(seq, cur), min(seq, self.r), 0]), variant, to]]
         if kind == "retire":
             to_seq = self.p_default if to is None else to
             c = rng.random()
@@ -948,7 +946,7 @@ def _alarm(signum, frame):
 
 def hist_batch(batch, res):
     signal.signal(signal.SIGALRM, _alarm)
-    t_hs = time.time()
+    t_hs = time.process_time()
     for i in range(batch["n"]):
         cfg = {"role": batch["role"], "plimit": batch["plimit"], "elimit": batch["elimit"], "seed": batch["seed"] * 1009 + i}
         sub = Result()
@@ -967,7 +965,7 @@ def hist_batch(batch, res):
         finally:
             signal.alarm(0)
         _merge(res, sub.as_dict())
-    res.count("cpu_s_histories", round(time.time() - t_hs, 2))
+    res.count("cpu_s_histories", round(time.process_time() - t_hs, 2))
 
 
 def replay_batch(batch, res):
@@ -982,5 +980,6 @@ def run_batch(batch):
     res = Result()
     t0 = time.time()
     GENS[batch["gen"]](batch, res)
-    res.count("cpu_s_total", round(time.time() - t0, 2))
+    res.count("cpu_s_total", round(time.process_time(), 2))  # whole child, imports included
+    res.count("wall_s_total", round(time.time() - t0, 2))
     return res.as_dict()
